@@ -300,6 +300,10 @@ func c15Run(c *mon.Ctx, unit int) {
 		sch, bo := lib.Build(sp)
 		if !bo.OK {
 			c.Count("schemas whose construction failed (skipped)", 1)
+			c.Count(fmt.Sprintf("construction failed: %s, code %d", class, bo.Code), 1)
+			if bo.Panic != "" {
+				c.Violate("panic", c15Case{sp}, "no panic", bo.String(), "AddType / AddRule panicked")
+			}
 			continue
 		}
 		if co := lib.Safe(sch.Check); !co.OK {
